@@ -927,5 +927,9 @@ theorem src_max_speed_fold {α : Type} [Field α] [LinearOrder α] [IsStrictOrde
         ((zero : α), 0) := by
   simp [Build.maxFold, max_speed_fold, Rel.num]
 
+theorem src_speed_from_str_negative {α : Type} [Field α] [LinearOrder α] [IsStrictOrderedRing α] [Lit α] [LawfulLit α] (x : α) :
+    Build.parseSpeed (.val x) = if speed_from_str_negative.num x (zero : α) = some true then none else some x := by
+  simp [Build.parseSpeed, speed_from_str_negative, Rel.num]
+
 end C02
 end Compass
